@@ -40,8 +40,6 @@ ERR = {1: "accepted/rejected differs from the model", 2: "before image differs f
 # what a listed finding is allowed to look like: any OTHER failure of a statement inside the region is a violation
 FINDING_SIG = {
     "upsert.pk-listed.unique-changed": ("after image rows [] differ",),
-    "insert.pk-null-or-zero": ("rows were matched/inserted but no image was recorded", "after image rows [", "the statement panicked"),
-    "insert.auto-batch": ("the statement panicked",),
 }
 
 
@@ -312,7 +310,8 @@ def run(chk, only=None):
         "the database checks key uniqueness row by row in scan order (MySQL; fakedb does the same) - used by C18_pk_reject",
         "column types limited to integers, strings and NULL (other types: C08)",
         "'exactly the rows it changed' is read as: image keys = rows matched by WHERE/ORDER/LIMIT (a matched row updated to the same value is recorded), changed rows are a subset",
-        "INSERT with an explicit NULL/0 key or an auto-increment batch, string literals or function calls around parameters in WHERE are outside the clean stream",
+        "auto_increment_increment = 1 (the model's generated keys are consecutive; the Go code multiplies by the variable's value)",
+        "string literals or function calls around parameters in WHERE are probe streams (refused statements), not part of the clean stream",
     ]
     return chk.finish()
 
